@@ -20,6 +20,7 @@ import (
 	"flag"
 	"fmt"
 	"io"
+	"net/http"
 	"os"
 	"regexp"
 	"runtime"
@@ -55,6 +56,9 @@ type Case struct {
 	Op     string            `json:"op"`
 	Faults map[string]string `json:"faults"`
 	Order  []int             `json:"order"`
+	// Variant refines the fault kinds of the case (chosen by TLC, see variantOf): status code of Non2xxNonJSON, shape of
+	// the errors array / type of "extensions" of PartialData and ErrorsNoData. 0 = the plain kind.
+	Variant int `json:"variant"`
 	// Then: id of the operation executed as the SECOND request on the same gateway ("" = the same operation again)
 	Then string `json:"then"`
 }
@@ -377,7 +381,55 @@ var multiAliasRe = regexp.MustCompile(`^f[0-9]+$`)
 
 // partialData turns a genuine subgraph answer into a partial one: the last field of the last element of every _entities
 // array (plain or aliased) resp. the last root field of data becomes null and an errors entry with its path is added.
-func partialData(fid int, status int, body []byte) (int, []byte) {
+// Variants of a kind (Case.Variant modulo the number of variants of the kind):
+//
+//	Non2xxNonJSON  status of the unparseable answer: 500, 302 (no Location), 401, 403, 429
+//	PartialData    0 one error with the path of the hole; 1..3 a path-less companion BEFORE it (no path / path:null /
+//	               path:[]); 4 the companion after it; 5..9 the error carries "extensions" of type string / array /
+//	               number / bool / object
+//	ErrorsNoData   0 plain; 1..5 "extensions" of type string / array / number / bool / object, with "data":null
+var (
+	non2xxStatuses = []int{500, 302, 401, 403, 429}
+	oddExtensions  = []string{`"UPSTREAM_UNAVAILABLE"`, `["a",1]`, `42`, `true`, `{"code":"DOWNSTREAM_SERVICE_ERROR"}`}
+)
+
+func variantsOf(kind string) int {
+	switch kind {
+	case "Non2xxNonJSON":
+		return len(non2xxStatuses)
+	case "PartialData":
+		return 5 + len(oddExtensions)
+	case "ErrorsNoData":
+		return 1 + len(oddExtensions)
+	}
+	return 1
+}
+
+// shapeErrors applies a PartialData variant to the list of path errors of one answer.
+func shapeErrors(fid, variant int, errs []string) []string {
+	companion := func(path string) string {
+		return fmt.Sprintf(`{"message":"faults: backend degraded (fetch %d)"%s}`, fid, path)
+	}
+	switch {
+	case variant == 1:
+		return append([]string{companion("")}, errs...)
+	case variant == 2:
+		return append([]string{companion(`,"path":null`)}, errs...)
+	case variant == 3:
+		return append([]string{companion(`,"path":[]`)}, errs...)
+	case variant == 4:
+		return append(errs, companion(""))
+	case variant >= 5 && variant < 5+len(oddExtensions):
+		out := make([]string, len(errs))
+		for i, e := range errs {
+			out[i] = strings.TrimSuffix(e, "}") + `,"extensions":` + oddExtensions[variant-5] + "}"
+		}
+		return out
+	}
+	return errs
+}
+
+func partialData(fid int, variant int, status int, body []byte) (int, []byte) {
 	var doc map[string]json.RawMessage
 	if json.Unmarshal(body, &doc) != nil {
 		return status, body
@@ -430,6 +482,7 @@ func partialData(fid int, status int, body []byte) (int, []byte) {
 		members[last].v = json.RawMessage("null")
 		errs = append(errs, fmt.Sprintf(`{"message":"faults: injected partial failure (fetch %d)","path":[%q]}`, fid, members[last].k))
 	}
+	errs = shapeErrors(fid, variant, errs)
 	var buf bytes.Buffer
 	buf.WriteString(`{"errors":[` + strings.Join(errs, ",") + `],"data":{`)
 	for i, m := range members {
@@ -483,10 +536,23 @@ func execute(op Op, c *Case, withPlan bool, second *Op) Out {
 	faults := map[int]fedenv.Fault{}
 	rewrites := map[int]func(int, []byte) (int, []byte){}
 	denied := map[int]bool{}
+	customs := map[int]fedenv.Action{}
 	var order []int
 	if c != nil {
 		for k, v := range c.Faults {
 			id, err := strconv.Atoi(k)
+			variant := c.Variant % variantsOf(v)
+			if err == nil && v == "Non2xxNonJSON" && variant > 0 {
+				st := non2xxStatuses[variant]
+				customs[id] = fedenv.Action{Fault: fedenv.FaultCustom, Status: st, Header: map[string][]string{"Content-Type": {"text/html"}},
+					Body: []byte(fmt.Sprintf("<html><body><h1>%d %s</h1></body></html>", st, http.StatusText(st)))}
+				continue
+			}
+			if err == nil && v == "ErrorsNoData" && variant > 0 {
+				customs[id] = fedenv.Action{Fault: fedenv.FaultCustom, Status: 200, Body: []byte(fmt.Sprintf(
+					`{"errors":[{"message":"faults: injected subgraph error (fetch %d)","extensions":%s}],"data":null}`, id, oddExtensions[variant-1]))}
+				continue
+			}
 			if err == nil && v == "RateLimited" {
 				denied[id] = true
 				continue
@@ -499,7 +565,7 @@ func execute(op Op, c *Case, withPlan bool, second *Op) Out {
 			if err == nil && v == "PartialData" {
 				// 200 with data + errors: one part of the genuine data is nulled and reported
 				fid := id
-				rewrites[id] = func(st int, body []byte) (int, []byte) { return partialData(fid, st, body) }
+				rewrites[id] = func(st int, body []byte) (int, []byte) { return partialData(fid, variant, st, body) }
 				continue
 			}
 			f, ok := fedenv.ParseFault(v)
@@ -582,6 +648,9 @@ func execute(op Op, c *Case, withPlan bool, second *Op) Out {
 		xmu.Lock()
 		xfetch[x.Seq] = fid
 		xmu.Unlock()
+		if a, ok := customs[fid]; ok {
+			return a
+		}
 		return fedenv.Action{Fault: faults[fid], Rewrite: rewrites[fid]}
 	}
 	env, err := fedenv.New(opts)
